@@ -24,10 +24,10 @@ func init() {
 }
 
 func runC03(c *core.Ctx) {
-	ruleEmissionLiterals(c)
-	ruleOffsetCapture(c)
-	ruleXRefStreamRows(c)
-	ruleObjStmHeader(c)
+	ruleEmissionLiterals(c, "C03-R1")
+	ruleOffsetCapture(c, "C03-R2")
+	ruleXRefStreamRows(c, "C03-R3")
+	ruleObjStmHeader(c, "C03-R4")
 	ruleEncOffBeforeXRef(c, "C03-R5")
 	ruleInStreamGuards(c, "C03-R6")
 	ruleSeparators(c, "C03-R7") // tokens must stay separated for an independent tokenizer too
@@ -120,8 +120,7 @@ type litRule struct {
 	what    string
 }
 
-func ruleEmissionLiterals(c *core.Ctx) {
-	const rule = "C03-R1"
+func ruleEmissionLiterals(c *core.Ctx, rule string) {
 	eol := `(\n|\r\n)`
 	rules := []litRule{
 		{"NewWriter", []string{`^%PDF-S` + eol + `%[\x80-\xff]{4,}` + eol + `$`, `^\n$`}, []string{`^%PDF-S`}, "header '%PDF-x.y' EOL, then a comment line with at least four bytes >= 0x80"},
@@ -325,8 +324,7 @@ func mentionsPos(info *types.Info, n ast.Node) bool {
 	return found
 }
 
-func ruleOffsetCapture(c *core.Ctx) {
-	const rule = "C03-R2"
+func ruleOffsetCapture(c *core.Ctx, rule string) {
 	c.Floor(rule, 5)
 	for _, name := range []string{"(*Writer).Put", "(*Writer).OpenStream"} {
 		name := name
@@ -612,8 +610,7 @@ func findBinary(e ast.Expr, op token.Token) *ast.BinaryExpr {
 	return out
 }
 
-func ruleXRefStreamRows(c *core.Ctx) {
-	const rule = "C03-R3"
+func ruleXRefStreamRows(c *core.Ctx, rule string) {
 	fn := c.Prog.Func("pdf", "(*Writer).writeXRefStream")
 	g := fn.Graph()
 	info := fn.Info()
@@ -853,8 +850,7 @@ func ruleXRefStreamRows(c *core.Ctx) {
 	})
 }
 
-func ruleObjStmHeader(c *core.Ctx) {
-	const rule = "C03-R4"
+func ruleObjStmHeader(c *core.Ctx, rule string) {
 	fn := c.Prog.Func("pdf", "(*Writer).WriteCompressed")
 	g := fn.Graph()
 	info := fn.Info()
